@@ -86,3 +86,11 @@ check('C04', 'symbolic execution of the MIR of BranchRulesConfig::apply_branch_r
 for e in ENGINES:
     if e['name'] in ('msym', 'native-driver', 'kani'):
         e['serves_properties'] = sorted(set(e['serves_properties']) | {'C04'})
+
+check('C15', 'symbolic execution of the MIR of the SemVer/PEP440 part accessors, ZervTemplateContext::from_zerv and the custom Tera functions with symbolic records / values; z3 decides recomposition and each function contract per path',
+      'PARTIAL. Decided: base/pre_release/build parts recompose exactly to to_string for every SemVer / PEP 440 record shape in the bound, docker form = SemVer with + -> -; ZervTemplateContext::from_zerv (executed with Utc::now symbolic) yields semver/pep440 strings, part objects and scalars equal to the conversions of the same Zerv for a set of C06 schemas with symbolic variables; prefix / prefix_if / hash / sanitize / format_timestamp keep their contracts for symbolic argument values (functions called on HashMap<String, tera::Value> arguments built in the interpreter). NOT decided: Tera\'s own parsing/rendering of arbitrary user templates.',
+      'trusted: python models (std, HashMap, serde_json::Value accessors, chrono items, uninterpreted SipHash), z3. hash_int is under C04.',
+      'DESIGN.md §7 C15')
+for e in ENGINES:
+    if e['name'] in ('msym', 'native-driver'):
+        e['serves_properties'] = sorted(set(e['serves_properties']) | {'C15'})
